@@ -91,14 +91,14 @@ Qed.
 
 Lemma scan_rhs_spec tab pl : forall es syms prec act,
   match scan_rhs tab pl es syms prec act with
-  | inl e => exists n, e = FUndefined n /\ In (RSym n) es /\ tab_has tab n = false
-  | inr (syms', _, _) => (forall n, In (RSym n) es -> tab_has tab n = true) /\ syms' = syms ++ rsyms es
+  | inl e => exists n, e = FUndefined n /\ In (RSym n) es /\ tab_usable tab n = false
+  | inr (syms', _, _) => (forall n, In (RSym n) es -> tab_usable tab n = true) /\ syms' = syms ++ rsyms es
   end.
 Proof.
   induction es as [|e es IH]; intros syms prec act; cbn [scan_rhs].
   - split; [intros n []|rewrite app_nil_r; reflexivity].
   - destruct e as [n|c].
-    + destruct (tab_has tab n) eqn:Eh.
+    + destruct (tab_usable tab n) eqn:Eh.
       * specialize (IH (syms ++ [n]) (match pre_map pl n with Some _ => Some n | None => prec end) act).
         destruct (scan_rhs tab pl es (syms ++ [n]) _ act) as [e|[[syms' p'] a']].
         -- destruct IH as (m & -> & Hin & Hh). exists m. split; [reflexivity|]. split; [right; exact Hin|exact Hh].
@@ -113,8 +113,8 @@ Qed.
 
 Lemma visit_rules_list_spec tab pl : forall rs,
   match visit_rules_list tab pl rs with
-  | inl e => exists n r, e = FUndefined n /\ In r rs /\ In (RSym n) (r_rhs r) /\ tab_has tab n = false
-  | inr vs => (forall r n, In r rs -> In (RSym n) (r_rhs r) -> tab_has tab n = true) /\
+  | inl e => exists n r, e = FUndefined n /\ In r rs /\ In (RSym n) (r_rhs r) /\ tab_usable tab n = false
+  | inr vs => (forall r n, In r rs -> In (RSym n) (r_rhs r) -> tab_usable tab n = true) /\
               map (fun x => (v_lhs x, v_rhs x)) vs = map (fun r => (r_lhs r, rsyms (r_rhs r))) rs
   end.
 Proof.
@@ -140,7 +140,7 @@ Theorem visit_cases a :
   | inl (FUndefined n) => exists r, In r (a_rules a) /\ In (RSym n) (r_rhs r)
   | inl (FPrecUnknown n) => exists line, In line (d_precs (a_decl a)) /\ In n (map pd_name line)
   | inl _ => False
-  | inr v => (forall r n, In r (a_rules a) -> In (RSym n) (r_rhs r) -> tab_has (vs_tab v) n = true) /\
+  | inr v => (forall r n, In r (a_rules a) -> In (RSym n) (r_rhs r) -> tab_usable (vs_tab v) n = true) /\
              map (fun x => (v_lhs x, v_rhs x)) (vs_rules v) = map (fun r => (r_lhs r, rsyms (r_rhs r))) (a_rules a)
   end.
 Proof.
